@@ -70,7 +70,7 @@ def generate(rng, tier='quick', stack=None, focus='general', **kw):
     if cfg['aperture']['jitter_min_sec'] == 2:
       cfg['aperture']['jitter_max_sec'] = 5
   if stack == 'mux':
-    cfg['tag_base'] = rng.choice([None, None, 250, 65530, 2 ** 24 - 40])
+    cfg['tag_base'] = rng.choice([None, None, 250, 65530, 2 ** 24 - 40, 2 ** 24 - 8, 2 ** 24 - 4])
     cfg['answer_discards'] = rng.random() < 0.5
     cfg['adversarial'] = (focus == 'c11' and rng.random() < 0.6)
   scn['cfg'] = cfg
@@ -86,7 +86,7 @@ def generate(rng, tier='quick', stack=None, focus='general', **kw):
 
   # calls
   n_calls = rng.randint(3, 40 if not big else 90)
-  methods = ['echo', 'echo', 'echo', 'poke', 'swap', 'risky', 'risky'] if scn['iface'] == 'sim' else ['hi']
+  methods = ['echo', 'echo', 'echo', 'poke', 'swap', 'risky', 'risky', 'guard'] if scn['iface'] == 'sim' else ['hi']
   # a third of the scenarios are "late-reply heavy": short timeouts, replies
   # that arrive shortly after them, new calls arriving in between
   late_heavy = rng.random() < 0.33
@@ -126,7 +126,7 @@ def generate(rng, tier='quick', stack=None, focus='general', **kw):
     if 'kind' not in svc:
       if kk < 0.12:
         svc['kind'] = 'appexc'
-      elif kk < 0.24 and m == 'risky':
+      elif kk < 0.24 and m in ('risky', 'guard'):
         svc['kind'] = 'declared'
       elif kk < 0.30 and faults_on:
         svc['kind'] = rng.choice(['close', 'reset', 'garbage'] + (['half'] if stack == 'thrift' else ['nack', 'rerror', 'rerr', 'bad_rerr']))
